@@ -515,10 +515,9 @@ PROPS = {
         "assumptions": ["tables with reciprocal extensions (every table produced from reads; others only compared with the model)"],
     },
     "C02": {
-        "lean_modules": ["Dbg.Props.C02"],
-        "theorems": ["Compress.C02_from_reads", "Compress.C02_components_seq", "Compress.C02_components", "Compress.C02_link_sym", "Compress.linkOf_sym", "Compress.noPanic"],
-        "partial": ["uniqueness up to cycle cut/orientation (C02_unique) is not stated separately; the executable componentsOK (good links recomputed "
-                    "from the table by a definition independent of linkOf) is evaluated on the crate's nodes"],
+        "lean_modules": ["Dbg.Props.C02", "Dbg.Props.C02b"],
+        "theorems": ["Compress.C02_order_independent", "Compress.C02_from_reads", "Compress.C02_components_seq", "Compress.C02_components", "Compress.C02_link_sym", "Compress.linkOf_sym", "Compress.noPanic"],
+        "partial": [],
         "n_quick": 3000, "n_thorough": 200000,
         "nontrivial": _c01_nontrivial, "tags": _c01_tags, "shrink": _table_shrink,
         "harness_key": "C02",
@@ -544,7 +543,7 @@ PROPS = {
     "C09": {
         "lean_modules": ["Dbg.Props.C09", "Dbg.Props.C09b", "Dbg.Props.C09c"],
         "theorems": ["CompressGraph.C09_idempotent", "CompressGraph.C09_result_wellformed", "Compress.pgraph_compressGraph", "Compress.pgraph_recompress_idem", "CompressGraph.C09_recompress_eq_direct", "CompressGraph.C09_char", "CompressGraph.C09_char_of_built", "CompressGraph.rinv_fixExts", "CompressGraph.glinkV_sym", "CompressGraph.extendNode_refines", "CompressGraph.static_ok", "CompressGraph.palEnd_of_compress", "CompressGraph.C09_kmers_cover", "CompressGraph.C09_no_dangling", "CompressGraph.buildNode_kmers", "CompressGraph.buildNode_payload", "CompressGraph.fixExts_exact", "CompressGraph.extendNode_chain", "CompressGraph.C09_censored_excluded", "CompressGraph.extendNode_ok", "CompressGraph.buildNode_ok", "CompressGraph.compressLoop_ok"],
-        "partial": ["without censoring everything is proved (result well-formed: C09_result_wellformed; idempotence: C09_idempotent; finer join then re-compression = direct compression: C09_recompress_eq_direct); with a non-empty censor set the characterisation C09_char is proved but the comparison of the censored result with the k-mer table (components by label propagation against the table reconstructed from the surviving nodes) is an executable predicate on the crate's result"],
+        "partial": [],
         "n_quick": 2500, "n_thorough": 150000,
         "nontrivial": lambda toks, impl: impl not in ("panic", "-") and toks[8].count(",") >= 2, "tags": _c09_tags,
         "rule": "requests `recompress K gstranded stranded join reduce censor nodes` on graphs obtained from the real pipeline at three compression "
